@@ -105,7 +105,16 @@ impl<'a> Gen<'a> {
             zones = named.clone();
         }
         // always mixed with a fixed-offset zone, an unknown and a wrong-case name
-        zones.push(self.rng.pick(&["+05:30", "-03:00", "+00:00", "Z"]).to_string());
+        // a fixed-offset zone: the usual ones, or any sign / hour / minute
+        let fixed = if self.rng.chance(1, 2) {
+            self.rng.pick(&["+05:30", "-03:00", "+00:00", "Z"]).to_string()
+        } else {
+            let sign = if self.rng.chance(1, 2) { '+' } else { '-' };
+            let hh = *self.rng.pick(&[0u8, 0, 0, 1, 3, 5, 9, 12, 14, 23]);
+            let mm = *self.rng.pick(&[0u8, 0, 30, 45, 1, 59, 7]);
+            format!("{sign}{hh:02}:{mm:02}")
+        };
+        zones.push(fixed);
         zones.push(self.rng.pick(&["No/Such_Zone", "Europe/Atlantis", "Mars/Olympus"]).to_string());
         let victim = self.rng.pick(&named).clone();
         zones.push(if self.rng.chance(1, 2) { victim.to_lowercase() } else { victim.to_uppercase() });
